@@ -59,7 +59,7 @@ func init() {
 				return streamFamilies(tier, c01Body)
 			},
 			Bounds: func(tier string) map[string]interface{} {
-				return map[string]interface{}{"max_tree_nodes": tierPick(tier, 4, 6), "leaf_alphabet": tierPick(tier, 3, 4), "string_atoms_max": tierPick(tier, 2, 3), "float32_sweep": tierPick(tier, "alphabet only", "all 2^32 bit patterns x 3 codecs")}
+				return map[string]interface{}{"max_tree_nodes": tierPick(tier, 5, 6), "leaf_alphabet": tierPick(tier, 3, 4), "string_atoms_max": tierPick(tier, 2, 3), "float32_sweep": tierPick(tier, "alphabet only", "all 2^32 bit patterns x 3 codecs")}
 			},
 			Require: []string{"roundtrips_compared"},
 		})
